@@ -208,7 +208,7 @@ func genExt(t *rapid.T, nTex int, label string, avoid map[int]bool) ExtDesc {
 		e.Kind = (e.Kind + 1) % extKinds
 	}
 	e.A, e.B = rapid.IntRange(0, 2).Draw(t, label+".A"), rapid.IntRange(0, 2).Draw(t, label+".B")
-	e.C, e.D = rapid.IntRange(0, 3).Draw(t, label+".C"), rapid.IntRange(0, 3).Draw(t, label+".D")
+	e.C, e.D = rapid.IntRange(0, nColours-1).Draw(t, label+".C"), rapid.IntRange(0, nColours-1).Draw(t, label+".D")
 	uses := extTexUse(e.Kind)
 	if uses[0] && rapid.Bool().Draw(t, label+".hasT1") {
 		e.T1 = genTexRef(t, nTex, label+".T1")
@@ -224,10 +224,10 @@ func genFreshMat(t *rapid.T, nTex int, label string) MatDesc {
 	d.Name = rapid.IntRange(0, len(matNames)-1).Draw(t, label+".name")
 	d.Extras = sparse(t, len(extrasVals)-1, label+".extras")
 	d.Alpha = sparse(t, 5, label+".alpha")
-	d.Emissive = sparse(t, 3, label+".emissive")
+	d.Emissive = sparse(t, nColours-1, label+".emissive")
 	d.Pbr = rapid.Bool().Draw(t, label+".pbr")
 	if d.Pbr {
-		d.BaseColor = rapid.IntRange(0, 3).Draw(t, label+".baseColor")
+		d.BaseColor = rapid.IntRange(0, nColours-1).Draw(t, label+".baseColor")
 		d.Metallic = sparse(t, 2, label+".metallic")
 		d.Roughness = sparse(t, 2, label+".roughness")
 		if rapid.IntRange(0, 2).Draw(t, label+".hasBaseTex") == 0 {
@@ -310,11 +310,11 @@ func mutateMat(t *rapid.T, c *Case, d MatDesc, label string) MatDesc {
 	case "alpha":
 		d.Alpha = other(t, d.Alpha, 6, label+".v")
 	case "emissive":
-		d.Emissive = other(t, d.Emissive, 4, label+".v")
+		d.Emissive = other(t, d.Emissive, nColours, label+".v")
 	case "pbr":
 		d.Pbr = !d.Pbr
 	case "baseColor":
-		d.Pbr, d.BaseColor = true, other(t, d.BaseColor, 4, label+".v")
+		d.Pbr, d.BaseColor = true, other(t, d.BaseColor, nColours, label+".v")
 	case "metallic":
 		d.Pbr, d.Metallic = true, other(t, d.Metallic, 3, label+".v")
 	case "roughness":
@@ -507,7 +507,7 @@ func genCase(t *rapid.T) Case {
 	if k := rapid.IntRange(0, 5).Draw(t, "nLights"); k <= 2 {
 		for i := 0; i < k; i++ {
 			label := fmt.Sprintf("light%d", i)
-			c.Lights = append(c.Lights, LightDesc{Type: rapid.IntRange(0, 3).Draw(t, label+".type"), Color: rapid.IntRange(0, 3).Draw(t, label+".color"),
+			c.Lights = append(c.Lights, LightDesc{Type: rapid.IntRange(0, 3).Draw(t, label+".type"), Color: rapid.IntRange(0, nColours-1).Draw(t, label+".color"),
 				Intensity: rapid.IntRange(0, 2).Draw(t, label+".intensity"), Range: rapid.IntRange(0, 2).Draw(t, label+".range"), Pos: genVec3(t, label+".pos")})
 		}
 	}
